@@ -2,6 +2,7 @@ SPECIFICATION Spec
 CONSTANTS
   ReproDeviations = {}
   Formats = {"deb", "rpm"}
+  MaxSrc = 1
   MaxSteps = 6
 INVARIANTS Function
 CHECK_DEADLOCK FALSE
